@@ -23,10 +23,13 @@ CHECKS.update({
  "C15": ("bounded SMT (z3) over a symbolic text: exact encoding of re's backtracking finditer for each real Integer pattern vs a numeric specification",
          "For every enumerated (start,end,variant) the pattern emitted by the real generator is encoded with CPython's priority semantics and z3 shows that no text "
          "up to the bound has a finditer result different from the numeric specification (value as linear term over digit variables, leading zeros, sign rules); "
-         "extensible forms via the relational encoding of fullmatch. Bounded in text length and in the enumerated ranges.", _E2NOTE, "DESIGN.md §2 C15"),
- "C16": ("bounded SMT (z3) over a symbolic text: relational encoding of re matching for each real Decimal pattern vs a numeric/fraction-length specification",
+         "extensible forms via the relational encoding of fullmatch. Bounded in text length and in the enumerated ranges. Invalid start/end arguments from a concrete grid; "
+         "a counterexample that only reproduces after the worker's earlier constructions is replayed with that history.", _E2NOTE, "DESIGN.md §2 C15"),
+ "C16": ("bounded SMT (z3) over a symbolic text: relational encoding of re matching for each real Decimal pattern vs a numeric/fraction-length specification; CrossHair symbolic execution (z3) of the real constructors with symbolic min_decimal/max_decimal",
          "For every enumerated parameter tuple and variant: no text up to the bound on which the real pattern and the specification disagree "
-         "(whole text, embedded spans, extensible forms).", _E2NOTE, "DESIGN.md §2 C16"),
+         "(whole text, embedded spans, extensible forms). Fraction-length bounds min_decimal, max_decimal in [-2, 3] (thorough 5) or None are symbolic in CrossHair harnesses over the real "
+         "constructors: InvalidArgumentValueException iff min < 1 or min > max, otherwise the emitted fraction part parses as the repeat {min, max} of a digit; other invalid arguments "
+         "from a concrete grid. A counterexample that only reproduces after the worker's earlier constructions is replayed with that history.", _E2NOTE, "DESIGN.md §2 C16"),
  "C17": ("bounded SMT (z3) over a symbolic text: relational encoding of re matching for real Numeral/Word/affix patterns vs alphabet/length/affix specification",
          "All bases 2..16 and enumerated length bounds / affix lists; every text up to the bound and every span decided by the solver.", _E2NOTE, "DESIGN.md §2 C17"),
  "C19": ("bounded SMT (z3) over a symbolic text: relational encoding of re matching for real Date patterns vs reference regexes from the documented table",
